@@ -501,12 +501,22 @@ def tagDet (tags : AList NT (AList DP α)) (S : NT) (P : DP) : Option α :=
   | none => none
   | some d => d.lookup P
 
+/-- `lambda current, S, P, _: current + self.tags[S][P]` -/
+def addTagDet (tags : AList NT (AList DP α)) (cur : α) (S : NT) (P : DP) : Option α :=
+  match tagDet tags S P with
+  | none => none
+  | some w => some (cur + w)
+
+/-- `lambda current, S, P, _: current * self.tags[S][P]` -/
+def mulTagDet (w : AList NT (AList DP α)) (cur : α) (S : NT) (P : DP) : Option α :=
+  match tagDet w S P with
+  | none => none
+  | some p => some (cur * p)
+
 /-- `TensorLogProbDetGrammar.log_probability(program)` (det 40-51) -/
 def logProbabilityDet (rules : AList NT (AList DP (List NT))) (start : NT) (tags : AList NT (AList DP α))
     (t : Prog) : Option α :=
-  match reduceDet rules (fun cur S P => match tagDet tags S P with
-      | none => none
-      | some w => some (cur + w)) t (ofNat 0) start [] with
+  match reduceDet rules (addTagDet tags) t (ofNat 0) start [] with
   | none => none
   | some r => some r.1
 
@@ -515,9 +525,7 @@ def derivWeightDet (rules : AList NT (AList DP (List NT))) (start : NT) (w : ALi
     (t : Prog) : Option α :=
   match derivDet rules t start [] with
   | none => none
-  | some d => foldlO (fun cur (sp : NT × DP) => match tagDet w sp.1 sp.2 with
-      | none => none
-      | some p => some (cur * p)) (ofNat 1) d.1
+  | some d => foldlO (fun cur (sp : NT × DP) => mulTagDet w cur sp.1 sp.2) (ofNat 1) d.1
 
 def tagU (tags : AList NT (AList DP (AList Alt α))) (st : StepU) : Option α :=
   match tags.lookup st.S with
@@ -551,14 +559,17 @@ def logProbabilityUOld (rules : AList NT (AList DP (List Alt))) (starts : List N
   | none => none
   | some rs => rs.flatten.head?
 
+def mulTagU (w : AList NT (AList DP (AList Alt α))) (cur : α) (st : StepU) : Option α :=
+  match tagU w st with
+  | none => none
+  | some p => some (cur * p)
+
 /-- Specification: probability that the converted grammar gives to the derivation `d` that
     begins at start symbol `S0`: start probability times the rule probabilities. -/
 def derivWeightU (w : AList NT (AList DP (AList Alt α))) (startW : AList NT α) (S0 : NT) (d : List StepU) : Option α :=
   match startW.lookup S0 with
   | none => none
-  | some s => foldlO (fun cur st => match tagU w st with
-      | none => none
-      | some p => some (cur * p)) s d
+  | some s => foldlO (mulTagU w) s d
 
 end Num2
 
@@ -600,6 +611,10 @@ def encodeU (L : Layer) (rules : AList NT (AList DP (List Alt))) (starts : List 
 /-- Specification of `encode`: the indicator vector of a set of positions -/
 def indicator (n : Nat) (ps : List Nat) : List Nat :=
   (List.range n).map (fun i => if i ∈ ps then 1 else 0)
+
+/-- Specification: the tensor positions of the primitive rules of a derivation -/
+def positionsOf (L : Layer) (steps : List (NT × DP)) : List Nat :=
+  steps.filterMap (fun sp => if sp.2.kind = .prim then posOf L sp.1 sp.2 else none)
 
 /-! ## Well-formedness (what a Python `dict` guarantees) and the hypothesis of the
     ε-ordering trick -/
